@@ -12,6 +12,9 @@
  */
 
 #include "cppConstType.h"
+#include "cppPointerType.h"
+#include "cppArrayType.h"
+#include "cppFunctionType.h"
 
 /**
  *
@@ -191,6 +194,29 @@ get_sizeof() const {
  */
 void CPPConstType::
 output(std::ostream &out, int indent_level, CPPScope *scope, bool complete) const {
+  // Does this pointer (possibly through further pointers) lead to an array
+  // or function type?
+  CPPType *target = _wrapped_around;
+  bool is_pointer = false;
+  while (target != nullptr) {
+    if (target->as_pointer_type() != nullptr) {
+      target = target->as_pointer_type()->_pointing_at;
+      is_pointer = true;
+    } else if (is_pointer && target->as_const_type() != nullptr) {
+      target = target->as_const_type()->_wrapped_around;
+    } else {
+      break;
+    }
+  }
+  if (is_pointer && target != nullptr &&
+      (target->as_array_type() != nullptr ||
+       target->as_function_type() != nullptr)) {
+    // The const belongs next to the star within the parentheses, as in
+    // int (*const)[5]; it cannot simply be appended.
+    output_instance(out, indent_level, scope, complete, "", "");
+    return;
+  }
+
   _wrapped_around->output(out, indent_level, scope, complete);
   out << " const";
 }
